@@ -1332,8 +1332,10 @@ void mmd_pair_tokens_in_block(token * block, token_pair_engine * e, stack * s) {
 
 		case BLOCK_LIST_ITEM:
 		case BLOCK_LIST_ITEM_TIGHT:
+			// One walk: it descends into the blocks inside the item as well (as it does
+			// for a block quote).  A second pass over those blocks let openers left over
+			// from the first pair up across pairs that were already matched.
 			token_pairs_match_pairs_inside_token(block, e, s, 0);
-			mmd_pair_tokens_in_chain(block->child, e, s);
 			break;
 
 		case LINE_TABLE:
